@@ -62,6 +62,15 @@ var strLit = map[string][2]string{
 	"shtml": {`"<a>&"`, "<a>&"}, "sls": {"\" \"", " "},
 }
 
+// "slong": a long string dense in characters that every escaping pass expands (HTML: 1 -> 6 bytes, quoting: 1 -> 2 or 6), so
+// that output buffers fill up and grow more than once in the middle of the string
+func init() {
+	unit := "<&>\u2028\"\\\n\x01é"
+	v := strings.Repeat(unit, 260)
+	b, _ := json.Marshal(v)
+	strLit["slong"] = [2]string{string(b), v}
+}
+
 var xLit = map[string]string{"x01": "01", "xtru": "tru", "xcomma": "1,", "xnone": ""}
 
 func rec(v interface{}) map[string]interface{} { m, _ := v.(map[string]interface{}); return m }
